@@ -37,9 +37,23 @@ FORMS = [
     ("{y} = (long)({x} * {x});", ["{y} = {x} * {x};"], True),
     ("{y} = (int){x} + {z};", ["{y} = {x} + {z};"], True), ("{y} = {x} - (int){z};", ["{y} = {x} - {z};"], True),
     ("{y} = (int)-{x};", ["{y} = {x} * 2;"], True), ("{y} = (int)5;", ["{y} = 5;"], False), ("{y} = -3;", ["{y} = 3;"], False),
+    # literals of every kind under a sign; two literals of which one is cast
+    ("{y} = -1.5;", ["{y} = 3;"], False), ("{y} = -0x10;", ["{y} = 3;"], False), ("{y} = -10L;", ["{y} = 3;"], False),
+    ("{y} = -7u;", ["{y} = 3;"], False), ("{y} = -'A';", ["{y} = 3;"], False), ("{y} = +2.5e3;", ["{y} = 3;"], False),
+    ("{y} = (long)1024 * 1024;", ["{y} = 3;"], False), ("{y} = (int)'a' - (int)'A';", ["{y} = 3;"], False), ("{y} = 2 + (int)3;", ["{y} = 3;"], False),
+    ("{y} = (int)5 + {x};", ["{y} = 5 + {x};"], True), ("{y} = {x} * (long)2;", ["{y} = {x} * 2;"], True),
     # the plain twin keeps the MENTION of the operand (`x = x;` has the identity flow): a mention decides whether a counted loop whose
     # guard it is is accepted, so dropping it would compare an accepted function with a refused one (false alarm of sweep seed 3)
     ("+{x};", ["{x} = {x};"], False), ("-{x};", ["{x} = {x};"], False), ("!{x};", ["{x} = {x};"], False),
+]
+
+
+# forms at the edge of the supported list: the gate refuses them today (two casts around a whole right-hand side are NOT transparent,
+# props/C18.v: C18_cast_twice_not_transparent); if a version of the gate accepts one, the analysis must give it the flow of its rewriting
+EDGE_FORMS = [
+    ("{y} = (int)(int){x};", ["{y} = {x};"]), ("{y} = (unsigned)(unsigned char){x};", ["{y} = {x};"]),
+    ("{y} = (int)(long){x}++;", ["{y} = {x};", "{x} = {x} + 1;"]), ("{y} = (int)(int)({x} + {z});", ["{y} = {x} + {z};"]),
+    ("{y} = (long)(int)-{x};", ["{y} = {x} * 2;"]),
 ]
 
 
@@ -159,6 +173,18 @@ def run(ctx):
                 if da is not None and db is not None and da["typed"] is not None and not strict:
                     recs.append(da)
                     coq_cases.append((f"form {sug} in {cx}", da, False))
+    nedge = 0
+    for sug, plain in EDGE_FORMS:
+        for cx in ctxs[:4]:
+            inst = lambda t: t.format(x="x", y="y", z="z")
+            mk = lambda text: "int f(int x, int y, int z)\n{\n" + cx.format(S=text) + "\n}\n"
+            a = mk(inst(sug))
+            b = mk(inst(plain[0]) if len(plain) == 1 else "{ " + " ".join(inst(t) for t in plain) + " }")
+            ra = e2e.run_real(a, True, True)
+            if ra["exc"] or ra["funcs"].get("f") is None:
+                continue                      # refused in strict mode: nothing is claimed about it
+            nedge += 1
+            compare(a, b, True, True, failing)
     if ctx.coq_ok:
         mism += e2e.coq_compare("c18", coq_cases)
     else:
@@ -167,7 +193,7 @@ def run(ctx):
     stats = {"evaluations": len(recs), "distinct_nontrivial": distinct,
              "rule": "random programs with unary/cast forms at every statement position + every form alone in 4 contexts (top level, branch, loop body, branch in loop); "
                      "each compared with its plain-rewriting twin on the real tool; non-trivial = distinct typed function",
-             "samples": [twin_case(ctx)[0]], "forms": len(FORMS), "form_occurrences": nforms, "coq_model_cases": len(coq_cases),
+             "samples": [twin_case(ctx)[0]], "forms": len(FORMS), "edge_forms_accepted_in_strict_mode": nedge, "form_occurrences": nforms, "coq_model_cases": len(coq_cases),
              "distribution": streams.distribution(recs)}
     return {"failing": failing, "corr_mismatch": mism, "stats": stats}
 
